@@ -974,6 +974,10 @@ func genRelayCase(w *wire.World, g *sip.Gen, i int, prop string) *relayCase {
 			if g.R.Intn(3) == 0 {
 				host, hs = hop.Name, "name"
 			}
+			if g.R.Intn(8) == 0 {
+				// a name that every service defines in its own host table, each with another address
+				host, hs = wire.PeerName, "service-defined-name"
+			}
 			port := hopPort
 			if port == 5060 && g.R.Intn(2) == 0 {
 				port = 0
